@@ -6,7 +6,7 @@ namespace e1 {
 enum Mon : uint32_t {
     M_C01 = 1u << 1, M_C02 = 1u << 2, M_C03 = 1u << 3, M_C04 = 1u << 4, M_C05 = 1u << 5, M_C06 = 1u << 6, M_C07 = 1u << 7, M_C08 = 1u << 8,
     M_C09 = 1u << 9, M_C10 = 1u << 10, M_C11 = 1u << 11, M_C12 = 1u << 12, M_C13 = 1u << 13, M_C14 = 1u << 14, M_C15 = 1u << 15, M_C16 = 1u << 16,
-    M_C17 = 1u << 17, M_C19 = 1u << 19,
+    M_C17 = 1u << 17, M_C19 = 1u << 19, M_C20 = 1u << 20,
 };
 
 struct Scenario {
@@ -30,6 +30,7 @@ struct Scenario {
     int64_t idle_tail_s = 0;               // after the script: keep advancing time for this long (C09 silence, C12)
     bool expect_all_success = true;        // C02-style liveness oracle applies
     std::string expect_note;
+    int rc_type = 0, rc_code = -1;         // C20 client-level sweep: acknowledgement type and reason byte under test
     // name without a trailing numeric id: signatures are keyed on the scenario family
     std::string family() const { size_t p = name.find_last_of('-'); if (p != std::string::npos && p + 1 < name.size() && name.find_first_not_of("0123456789", p + 1) == std::string::npos) return name.substr(0, p); return name; }
 };
